@@ -26,6 +26,7 @@ RULES = {
     "C06-c": "AGREE: all value/edge comparisons use <, >=, == only (half-open intervals)",
     "C06-d": "check_edges_increasing precedes storing the edges",
     "C06-e": "get_bin_on_value maps the 1-d lookup over the dimensions in order, after the length check",
+    "C06-f": "PROGRESS: every way round the search loop of get_bin_on_value_1d strictly shrinks the interval of candidate indices",
 }
 HIST = "lena.structures.histogram"
 HF = "lena.structures.hist_functions"
@@ -261,7 +262,60 @@ def check_md_lookup(ctx):
               detail="length mismatch rejected first", construct="md-length")
 
 
+def check_progress(ctx):
+    """The search loop of get_bin_on_value_1d has no exit condition of its own (`while True`): it ends because every
+    iteration that does not return strictly shrinks [low, high].  A step `bound += 1` / `bound -= 1` always does; a step
+    `bound = guess` does only if the path has established `guess != bound` -- otherwise the state repeats and fill() hangs."""
+    fn = ctx.tree.func(HF, "get_bin_on_value_1d")
+    loops = [l for l in fn.body if isinstance(l, ast.While)]
+    if not ctx.require(len(loops) == 1 and isinstance(loops[0].test, ast.Constant) and bool(loops[0].test.value), "C06-f", fn,
+                       "get_bin_on_value_1d: expected one `while True` search loop"):
+        return
+    loop = loops[0]
+    bounds = [s.targets[0].id for s in fn.body if isinstance(s, ast.Assign) and len(s.targets) == 1 and isinstance(s.targets[0], ast.Name)
+              and s.lineno < loop.lineno]
+    bounds = [b for b in bounds if any(isinstance(x, (ast.Assign, ast.AugAssign)) and b in [n for t in A.assigned_targets(x) for n in A.target_names(t)]
+                                       for x in A.walk_body(loop.body))]
+    if not ctx.require(len(bounds) == 2, "C06-f", loop, "search loop: the two interval bounds were not identified (%s)" % bounds):
+        return
+    n = 0
+    for p in P.loop_body_paths(loop):
+        if p.end not in ("fall", "continue"):
+            continue
+        n += 1
+        steps = []
+        for i, e in enumerate(p.ev):
+            if e[0] != "stmt":
+                continue
+            st = e[1]
+            if isinstance(st, ast.AugAssign) and isinstance(st.target, ast.Name) and st.target.id in bounds:
+                strict = isinstance(st.op, (ast.Add, ast.Sub)) and (A.int_const(st.value) or 0) >= 1
+                steps.append((st, strict, "by a constant step"))
+            elif isinstance(st, ast.Assign) and len(st.targets) == 1 and isinstance(st.targets[0], ast.Name) and st.targets[0].id in bounds:
+                b = st.targets[0].id
+                v = st.value
+                strict = False
+                why = "assigned `%s`" % A.src(v)
+                if isinstance(v, ast.Name):
+                    # the path must have refuted  b == v
+                    for t, pol in p.literals():
+                        if isinstance(t, ast.Compare) and len(t.ops) == 1 and {A.src(t.left), A.src(t.comparators[0])} == {b, v.id}:
+                            if (isinstance(t.ops[0], ast.Eq) and pol is False) or (isinstance(t.ops[0], ast.NotEq) and pol is True):
+                                strict = True
+                    why = "assigned `%s` %s" % (v.id, "after `%s != %s` was established" % (v.id, b) if strict else
+                                                "although the path has not excluded `%s == %s`" % (v.id, b))
+                steps.append((st, strict, why))
+        ok = any(strict for _, strict, _ in steps)
+        ctx.check("C06-f", ok, loop, "get_bin_on_value_1d can go round its search loop without shrinking the interval [%s]: %s -- with the "
+                  "same bounds the next iteration repeats this one, so histogram.fill never returns (the interpolated guess can equal a "
+                  "bound through floating-point rounding)" % (p.describe(4), "; ".join("`%s` %s" % (A.src(st), why) for st, _, why in steps) or "no bound changes"),
+                  detail="search loop [%s]: a bound moves strictly" % p.describe(3), construct="no-progress:" + ";".join(
+                      A.src_with(st, {bounds[0]: "low", bounds[1]: "high"}) for st, _, _ in steps), path=p)
+    ctx.instances_floor("C06-f", n, 3, "ways round the search loop of get_bin_on_value_1d")
+
+
 def check(ctx):
+    check_progress(ctx)
     check_once(ctx)
     n = check_negative_guard(ctx, HIST, "histogram.fill", "C06-b")
     n += check_negative_guard(ctx, "lena.structures.split_into_bins", "SplitIntoBins.fill", "C06-b")
@@ -272,6 +326,9 @@ def check(ctx):
 
 
 VARIANTS = [
+    M("search-safeguard-removed", "lena/structures/hist_functions.py", "            elif ind_max == ind_guess:\n                ind_max -= 1\n                continue\n", "", ["C06-f"]),
+    M("search-first-guard-removed", "lena/structures/hist_functions.py", "            if ind_min == ind_guess:\n                ind_min += 1\n                continue\n            # ind_max is always more that ind_guess,\n            # because val < arr[ind_max] (see the formula for shift).\n            # This branch is not needed and can't be tested.\n            # But for the sake of numerical inaccuracies, let us keep this\n            # so that we never get into an infinite loop.\n            elif ind_max == ind_guess:", "            if ind_max == ind_guess:", ["C06-f"]),
+    M("search-step-zero", "lena/structures/hist_functions.py", "            if ind_min == ind_guess:\n                ind_min += 1\n                continue", "            if ind_min == ind_guess:\n                ind_min += 0\n                continue", ["C06-f"]),
     M("value-float-once", "lena/structures/hist_functions.py", "    ind_min = 0\n    ind_max = len(arr) - 1\n    while True:\n        if ind_max - ind_min <= 1:", "    ind_min = 0\n    ind_max = len(arr) - 1\n    val = float(val)\n    while True:\n        if ind_max - ind_min <= 1:", ["C06-c"]),
     M("drop-overflow-accounting", "lena/structures/histogram.py", "        try:\n            subarr[ind] += weight\n        except IndexError:\n            self.n_out_of_range += weight\n            return",
       "        try:\n            subarr[ind] += weight\n        except IndexError:\n            return", ["C06-a"]),
